@@ -4,7 +4,7 @@ open Fpmodel
    input tokens (see harness/engines/c19.py:tokens):
      nodes_str:list bool, n_edges, acyclic, has_selfloop, ign_pct(0 none,1 in range,2 out), trust_pct, has_source, has_sink, origin(0 edge,1 node,2 other),
      wtype(0 int,1 float,2 other), elems:list (w(0 pos,1 zero,2 neg,3 missing) ign), conserving,
-     k:(0 z | 1 num den | 2 bool), has_superset, cons:list (is_list items:list (kind in_graph)), cov:(num den), cov_len:(0 | 1 num den), has_len_attr,
+     k:(0 z | 1 num den | 2 bool | 3 None | 4 str), has_superset, cons:list (is_list items:list (kind in_graph)), cov:(num den), cov_len:(0 | 1 num den), has_len_attr,
      starts:list bool, ends:list bool, ign:list (kind in_graph), search_enters *)
 let cls_of_int = function
   | 0 -> CstDAG | 1 -> CstDiGraph | 2 -> CNodeExpandedDiGraph | 3 -> CkFlowDecomp | 4 -> CMinFlowDecomp
@@ -26,7 +26,7 @@ let () = register "validate" (fun () ->
   let elems = next_list (fun () -> let w = (match next () with 0 -> WPos | 1 -> WZero | 2 -> WNeg | _ -> WMissing) in
                                    let g = next_bool () in { e_w = w; e_ign = g }) in
   let conserving = next_bool () in
-  let k = (match next () with 0 -> KInt (next_z ()) | 1 -> KNonInt (next_q ()) | _ -> KBool (next_bool ())) in
+  let k = (match next () with 0 -> KInt (next_z ()) | 1 -> KNonInt (next_q ()) | 2 -> KBool (next_bool ()) | 3 -> KNone | _ -> KStr) in
   let has_superset = next_bool () in
   let cons = next_list (fun () -> let l = next_bool () in let its = next_list next_item in
                                   { c_is_list = l; c_items = its }) in
